@@ -229,8 +229,9 @@ mod imp {
                         self.borrowed("pinAuth", b);
                     }
                     if let Some(p) = &c.sub_command_params {
-                        if let Some(h) = p.rp_id_hash {
-                            self.borrowed("rpIDHash", &h[..]);
+                        // (written so that it also builds if the member becomes an owned array: then nothing is borrowed)
+                        if let Some(h) = &p.rp_id_hash {
+                            MaybeBorrowed::audit(h, "rpIDHash", self);
                         }
                         if let Some(d) = &p.credential_id {
                             self.descriptor(d);
@@ -247,6 +248,18 @@ mod imp {
 
     fn finding(rule: &str, detail: String) -> Option<Finding> {
         Some(Finding { rule: rule.into(), detail })
+    }
+
+    trait MaybeBorrowed {
+        fn audit(&self, name: &str, a: &mut Audit);
+    }
+    impl<const N: usize> MaybeBorrowed for &serde_bytes::ByteArray<N> {
+        fn audit(&self, name: &str, a: &mut Audit) {
+            a.borrowed(name, &self[..]);
+        }
+    }
+    impl<const N: usize> MaybeBorrowed for serde_bytes::ByteArray<N> {
+        fn audit(&self, _: &str, _: &mut Audit) {}
     }
 
     /// Generation is a function of the entropy: a second generation must compare equal.
@@ -310,20 +323,23 @@ mod imp {
     }
 
     fn run_generator(dev: &mut Device, x: &GenSpec) -> Out {
-        let mut u = Unstructured::new(&x.entropy);
+        // the entropy string sits at an address alignment derived from its content (fuzzers hand out sub-slices)
+        let placed = crate::guard::Placed::new(&x.entropy, crate::prng::fnv(&x.entropy) as usize);
+        let entropy: &[u8] = placed.get();
+        let mut u = Unstructured::new(entropy);
         macro_rules! gen {
             ($t:ty) => {
                 if x.take_rest { <$t>::arbitrary_take_rest(u) } else { <$t>::arbitrary(&mut u) }
             };
         }
-        let mut audit = Audit { problems: Vec::new(), strings: 0, nonempty_strings: 0, base: &x.entropy };
+        let mut audit = Audit { problems: Vec::new(), strings: 0, nonempty_strings: 0, base: entropy };
         match x.generator {
             0 => match gen!(ctap1::Request) {
                 Ok(r) => {
                     audit.ctap1(&r);
                     let dbg = format!("{:?}", r);
                     let c = r.clone();
-                    Out::Ok { variant: dbg.split(['(', ' ']).next().unwrap_or("").to_string(), problems: audit.problems, nonempty_strings: 0, clone_eq: c == r && regen_equal(&x.entropy, x.take_rest, &r) && cf(&x.entropy, &r), dbg_len: dbg.len(), dispatch: crate::c10::dispatch_generated1(&mut dev.mocks, &r) }
+                    Out::Ok { variant: dbg.split(['(', ' ']).next().unwrap_or("").to_string(), problems: audit.problems, nonempty_strings: 0, clone_eq: c == r && regen_equal(entropy, x.take_rest, &r) && cf(entropy, &r), dbg_len: dbg.len(), dispatch: crate::c10::dispatch_generated1(&mut dev.mocks, &r) }
                 }
                 Err(arbitrary::Error::NotEnoughData) => Out::NotEnough,
                 Err(e) => Out::OtherError(format!("{:?}", e)),
@@ -333,7 +349,7 @@ mod imp {
                     audit.ctap2(&r);
                     let dbg = format!("{:?}", r);
                     let c = r.clone();
-                    Out::Ok { variant: crate::real::variant_name(&r).to_string(), problems: audit.problems, nonempty_strings: audit.nonempty_strings, clone_eq: c == r && regen_equal(&x.entropy, x.take_rest, &r) && clone_from_ok(&x.entropy, &r), dbg_len: dbg.len(), dispatch: crate::c10::dispatch_generated2(&mut dev.mocks, &r) }
+                    Out::Ok { variant: crate::real::variant_name(&r).to_string(), problems: audit.problems, nonempty_strings: audit.nonempty_strings, clone_eq: c == r && regen_equal(entropy, x.take_rest, &r) && clone_from_ok(entropy, &r), dbg_len: dbg.len(), dispatch: crate::c10::dispatch_generated2(&mut dev.mocks, &r) }
                 }
                 Err(arbitrary::Error::NotEnoughData) => Out::NotEnough,
                 Err(e) => Out::OtherError(format!("{:?}", e)),
@@ -343,10 +359,10 @@ mod imp {
                     let dbg = format!("{:?}", r);
                     let c = r.clone();
                     let clone_eq = c == r
-                        && regen_equal(&x.entropy, x.take_rest, &r)
-                        && cf(&x.entropy, &r)
+                        && regen_equal(entropy, x.take_rest, &r)
+                        && cf(entropy, &r)
                         && match &r {
-                            authenticator::Request::Ctap2(q) => clone_from_ok(&x.entropy, q),
+                            authenticator::Request::Ctap2(q) => clone_from_ok(entropy, q),
                             _ => true,
                         };
                     match &r {
